@@ -101,6 +101,9 @@ def run(tier, seed):
     rng = random.Random(seed)
     known = vlib.load_known()
     insts, kcov, subs = instances(tier, rng)
+    import os
+    P.design_mc(res, "Adv_Cover", "MC_Cover.cfg", os.path.join(vlib.SPEC, "mc", "peel_cover.ndjson"),
+                what="Cover machine: only required edges are marked, covered / honoured sets grow monotonically")
     recs = P.drive(insts + kcov)
     main = recs[:len(insts)]
     krecs = recs[len(insts):]
